@@ -1,15 +1,23 @@
 // C10 (a): conditional inclusion.  The REAL preprocess2 / skip_cond_incl / skip_cond_incl2 /
-// skip_line / push_cond_incl of preprocess.c run over real Token lists (built here, no tokenizer).
-//
-// Shape: a directive skeleton of D<=7 conditional directives (every well-formed sequence over
-//   O = group opener, L = #elif, S = #else, E = #endif, nesting <= 3: enumerated exhaustively in
-//   skeletons.inc, one harness function each) with a distinct text line t_i before, between and
-//   after all directives.
-// Symbolic per directive: opener flavour (#if b | #ifdef N | #ifndef N), the controlling bit b of
-//   #if/#elif, the name N in {X,Y}; symbolic: which of X,Y are defined.
-// h_junk_*: every #ifdef/#ifndef/#else/#endif line additionally carries a trailing token `J`.
+// skip_line / push_cond_incl of preprocess.c run over a SYMBOLIC directive sequence of NITEMS
+// lines, built as real, individually allocated Token lists (no tokenizer).  Line alphabet:
+//   #if b | #ifdef N | #ifndef N | #elif b | #else | #endif | text_i    (b, N in {X,Y} symbolic;
+//   which of X,Y are defined is symbolic) — optionally one trailing junk token `J` on
+//   #ifdef/#ifndef/#else/#endif lines.  Shorter sequences are covered: text lines are neutral.
 // eval_const_expr is cut (--replace-calls) to return the bit carried by the operand token (its
 // arithmetic belongs to C07).  Reference: C11 6.10.1 group selection over the line array.
+//
+// The nested loops/recursion of the skipper make a monolithic query cubic in the token count, so
+// the proof is compositional; every piece executes REAL code against contracts written over the
+// line array, and the contracts are themselves proved for the real functions:
+//   h_select*  real preprocess2, calls to skip_cond_incl  replaced by contract spec1
+//   h_skip1    real skip_cond_incl,  calls to skip_cond_incl2 replaced by contract spec2 == spec1
+//   h_skip2    real skip_cond_incl2, recursive calls replaced by contract spec2         == spec2
+//              (induction over the remaining list length: recursive calls are on strict suffixes)
+#ifndef NITEMS
+#define NITEMS 6
+#endif
+#define MAXNEST 3
 static int expect_no_diag;
 #define VERIF_ON_EXIT(code) VASSERT(!expect_no_diag, "no diagnostic on a well-formed directive sequence")
 #include "common.h"
@@ -17,72 +25,66 @@ static int expect_no_diag;
 #include "preprocess.c"
 #include "pp_env_impl.h"
 
-#define MAXD 7
-#define MAXNEST 3
-enum { F_IF, F_IFDEF, F_IFNDEF };
+enum { I_IF, I_IFDEF, I_IFNDEF, I_ELIF, I_ELSE, I_ENDIF, I_TEXT, I_NKINDS };
 struct IN_t {
-  struct { unsigned char flavour, bit, name; } d[MAXD];
+  struct { unsigned char kind, bit, name, junk; } it[NITEMS];
   unsigned char defined[2];
+  unsigned char start, at_junk;
 } IN;
 struct IN_t nondet_IN(void);
+#define IS_OPENER(k) ((k) == I_IF || (k) == I_IFDEF || (k) == I_IFNDEF)
 
 // ---------------------------------------------------------------- token construction
-static char sp_text[MAXD + 1][3];
-#define NTOK (4 * MAXD + MAXD + 1)
-static Token toks[NTOK + 1];
-static int ntok;
-static Token *text_tok[MAXD + 1];
+static char sp_text[NITEMS][3];
 static char sp_J[] = "J";
+static Token *first_tok, *last_tok;
+static Token *line_tok[NITEMS + 1];   // first token of line i; [NITEMS] = EOF
+static Token *junk_tok[NITEMS];       // trailing junk token of line i (or NULL)
+static Token *third_tok[NITEMS];      // third token of an opener line (what skip_cond_incl2 is handed)
 
-static Token *mk(TokenKind k, char *sp, int len, bool bol) {
-  Token *t = &toks[ntok++];
-  t->kind = k; t->loc = sp; t->len = len; t->at_bol = bol; t->has_space = !bol; t->next = t + 1;
-  t->file = &verif_file; t->line_no = 1;
+static Token *mk(int line, TokenKind k, char *sp, int len, bool bol) {
+  Token *t = calloc(1, sizeof(Token));
+  t->kind = k; t->loc = sp; t->len = len; t->at_bol = bol; t->has_space = !bol;
+  t->file = &verif_file; t->line_no = line;    // line_no carries the line index (preprocess2 never writes it)
+  if (last_tok) last_tok->next = t; else first_tok = t;
+  last_tok = t;
   return t;
 }
-static void mk_text(int i) {
-  sp_text[i][0] = 't'; sp_text[i][1] = '0' + i; sp_text[i][2] = 0;
-  text_tok[i] = mk(TK_IDENT, sp_text[i], 2, true);
-}
 
-static Token *build(const char *sk, int D, bool junk) {
-  ntok = 0;
-  for (int i = 0; i < MAXD; i++) {
-    if (i >= D) continue;
-    mk_text(i);
-    mk(TK_PUNCT, "#", 1, true);
-    char c = sk[i];
-    if (c == 'O' && IN.d[i].flavour == F_IF) {
-      mk(TK_IDENT, "if", 2, false);
-      mk(TK_PP_NUM, IN.d[i].bit ? "1" : "0", 1, false)->val = IN.d[i].bit;
-      if (junk) mk(TK_PUNCT, "#", 1, true);     // null directive: keeps token positions independent of the flavour
-    } else if (c == 'O') {
-      if (IN.d[i].flavour == F_IFDEF) mk(TK_IDENT, "ifdef", 5, false);
-      else mk(TK_IDENT, "ifndef", 6, false);
-      mk(TK_IDENT, IN.d[i].name ? "Y" : "X", 1, false);
-      if (junk) mk(TK_IDENT, sp_J, 1, false);
-    } else if (c == 'L') {
-      mk(TK_IDENT, "elif", 4, false);
-      mk(TK_PP_NUM, IN.d[i].bit ? "1" : "0", 1, false)->val = IN.d[i].bit;
+static Token *build(void) {
+  first_tok = last_tok = NULL;
+  for (int i = 0; i < NITEMS; i++) {
+    int kind = IN.it[i].kind;
+    junk_tok[i] = NULL; third_tok[i] = NULL;
+    if (kind == I_TEXT) {
+      sp_text[i][0] = 't'; sp_text[i][1] = '0' + i; sp_text[i][2] = 0;
+      line_tok[i] = mk(i, TK_IDENT, sp_text[i], 2, true);
+      continue;
+    }
+    line_tok[i] = mk(i, TK_PUNCT, "#", 1, true);
+    if (kind == I_IF || kind == I_ELIF) {
+      mk(i, TK_IDENT, kind == I_IF ? "if" : "elif", kind == I_IF ? 2 : 4, false);
+      third_tok[i] = mk(i, TK_PP_NUM, IN.it[i].bit ? "1" : "0", 1, false);
+      third_tok[i]->val = IN.it[i].bit;
+    } else if (kind == I_IFDEF || kind == I_IFNDEF) {
+      mk(i, TK_IDENT, kind == I_IFDEF ? "ifdef" : "ifndef", kind == I_IFDEF ? 5 : 6, false);
+      third_tok[i] = mk(i, TK_IDENT, IN.it[i].name ? "Y" : "X", 1, false);
+      if (IN.it[i].junk) junk_tok[i] = mk(i, TK_IDENT, sp_J, 1, false);
     } else {
-      mk(TK_IDENT, c == 'S' ? "else" : "endif", c == 'S' ? 4 : 5, false);
-      if (junk) mk(TK_IDENT, sp_J, 1, false);
+      mk(i, TK_IDENT, kind == I_ELSE ? "else" : "endif", kind == I_ELSE ? 4 : 5, false);
+      if (IN.it[i].junk) junk_tok[i] = mk(i, TK_IDENT, sp_J, 1, false);
     }
   }
-  mk_text(D);
-  Token *e = mk(TK_EOF, "", 0, true);
-  e->next = NULL;
-  return &toks[0];
+  line_tok[NITEMS] = mk(NITEMS, TK_EOF, "", 0, true);
+  return first_tok;
 }
 
 // eval_const_expr replacement: `tok` is the if/elif token; value = bit carried by the operand;
 // *rest = first token of the next line (what copy_line does)
 long stub_eval_const_expr(Token **rest, Token *tok) {
   Token *t = tok->next;
-  long v = t->val;
-  for (int i = 0; i < 3 && !t->at_bol; i++) t = t->next;
-  *rest = t;
-  return v;
+  *rest = t->next;
+  return t->val;
 }
 // Branches of preprocess2 that this alphabet cannot reach are cut by stubs that ASSERT
 // unreachability (the cut is checked, not assumed); they would otherwise drag the recursive
@@ -103,68 +105,156 @@ void stub_read_macro_definition(Token **rest, Token *tok) { UNREACH("no #define 
 void stub_read_line_marker(Token **rest, Token *tok) { UNREACH("no #line in this alphabet"); }
 
 // ---------------------------------------------------------------- reference (C11 6.10.1)
-static bool cond_of(const char *sk, int i) {
-  if (sk[i] == 'L' || IN.d[i].flavour == F_IF) return IN.d[i].bit;
-  bool d = IN.defined[IN.d[i].name];
-  return IN.d[i].flavour == F_IFDEF ? d : !d;
+static bool cond_of(int i) {
+  int k = IN.it[i].kind;
+  if (k == I_IF || k == I_ELIF) return IN.it[i].bit;
+  bool d = IN.defined[IN.it[i].name];
+  return k == I_IFDEF ? d : !d;
 }
-static bool ref_sel[MAXD + 1];    // is text line i selected?
-static void reference(const char *sk, int D) {
-  bool par[MAXNEST + 1], taken[MAXNEST + 1], cur[MAXNEST + 1];
+static bool ref_sel[NITEMS];          // text line i is selected
+static int depth_before[NITEMS + 1];  // nesting depth before line i
+static bool reference(void) {         // returns well-formedness (C11 6.10 grammar, nesting <= MAXNEST)
+  bool par[MAXNEST], taken[MAXNEST], cur[MAXNEST], els[MAXNEST];
   int d = 0;
-  for (int i = 0; i <= MAXD; i++) {
-    if (i > D) continue;
-    ref_sel[i] = d == 0 || (par[d - 1] && cur[d - 1]);
-    if (i == D) break;
-    char c = sk[i];
-    if (c == 'O') {
-      bool v = cond_of(sk, i);
-      par[d] = ref_sel[i]; taken[d] = v; cur[d] = v;
+  for (int i = 0; i < NITEMS; i++) {
+    depth_before[i] = d;
+    int k = IN.it[i].kind;
+    bool act = d == 0 || (par[d - 1] && cur[d - 1]);
+    ref_sel[i] = false;
+    if (IS_OPENER(k)) {
+      if (d == MAXNEST) return false;
+      bool c = cond_of(i);
+      par[d] = act; taken[d] = c; cur[d] = c; els[d] = false;
       d++;
-    } else if (c == 'L') {
-      cur[d - 1] = !taken[d - 1] && cond_of(sk, i);
+    } else if (k == I_ELIF) {
+      if (d == 0 || els[d - 1]) return false;
+      cur[d - 1] = !taken[d - 1] && cond_of(i);
       if (cur[d - 1]) taken[d - 1] = true;
-    } else if (c == 'S') {
+    } else if (k == I_ELSE) {
+      if (d == 0 || els[d - 1]) return false;
+      els[d - 1] = true;
       cur[d - 1] = !taken[d - 1];
       taken[d - 1] = true;
-    } else
+    } else if (k == I_ENDIF) {
+      if (d == 0) return false;
       d--;
+    } else
+      ref_sel[i] = act;
   }
+  depth_before[NITEMS] = d;
+  return d == 0;
 }
 
-static void run(const char *sk, bool junk) {
-  int D = 0;
-  while (D < MAXD && sk[D]) D++;
-  HAVOC_IN();
-  for (int i = 0; i < MAXD; i++)
-    __CPROVER_assume(IN.d[i].flavour <= F_IFNDEF && IN.d[i].bit <= 1 && IN.d[i].name <= 1);
+static void assume_shape(bool allow_junk) {
+  for (int i = 0; i < NITEMS; i++) {
+    __CPROVER_assume(IN.it[i].kind < I_NKINDS && IN.it[i].bit <= 1 && IN.it[i].name <= 1 && IN.it[i].junk <= 1);
+    int k = IN.it[i].kind;
+    if (!allow_junk || k == I_IF || k == I_ELIF || k == I_TEXT) __CPROVER_assume(IN.it[i].junk == 0);
+  }
   __CPROVER_assume(IN.defined[0] <= 1 && IN.defined[1] <= 1);
-  reference(sk, D);
+}
+
+// ---------------------------------------------------------------- contracts of the skipper
+// spec1: from line `from` at relative depth 0: first line that is #elif/#else/#endif at depth 0 -> its
+// first token; else EOF.
+static Token *spec1_from(int from) {
+  int d = 0;
+  for (int k = 0; k < NITEMS; k++) {
+    if (k < from) continue;
+    int kind = IN.it[k].kind;
+    if (IS_OPENER(kind)) d++;
+    else if (kind == I_ENDIF) { if (d == 0) return line_tok[k]; d--; }
+    else if ((kind == I_ELIF || kind == I_ELSE) && d == 0) return line_tok[k];
+  }
+  return line_tok[NITEMS];
+}
+// spec2: from line `from` at relative depth 0: the token after the `endif` keyword of the first
+// #endif at depth 0; else EOF.
+static Token *spec2_from(int from) {
+  int d = 0;
+  for (int k = 0; k < NITEMS; k++) {
+    if (k < from) continue;
+    int kind = IN.it[k].kind;
+    if (IS_OPENER(kind)) d++;
+    else if (kind == I_ENDIF) { if (d == 0) return junk_tok[k] ? junk_tok[k] : line_tok[k + 1]; d--; }
+  }
+  return line_tok[NITEMS];
+}
+// a token that is not the first of its line: the rest of its line contains no directive
+static int scan_start(Token *tok) {
+  int i = tok->line_no;
+  VASSERT(i >= 0 && i <= NITEMS, "skipper is called on a token of the input");
+  if (i >= NITEMS) return NITEMS;
+  return tok == line_tok[i] ? i : i + 1;
+}
+Token *spec1(Token *tok) { return spec1_from(scan_start(tok)); }
+Token *spec2(Token *tok) { return spec2_from(scan_start(tok)); }
+
+static void run_select(bool allow_junk) {
+  HAVOC_IN();
+  assume_shape(allow_junk);
+  bool wf = reference();
+  __CPROVER_assume(wf);
   if (IN.defined[0]) hashmap_put(&macros, "X", &dummy_macro);
   if (IN.defined[1]) hashmap_put(&macros, "Y", &dummy_macro);
-  Token *in = build(sk, D, junk);
+  Token *in = build();
   expect_no_diag = 1;
   Token *out = NULL;
   TRY(out = preprocess2(in));
   if (verif_diag) return;
   VASSERT(cond_incl == NULL, "conditional stack empty after a balanced sequence");
-  // emitted tokens == selected text lines, in order
   Token *t = out;
-  for (int i = 0; i <= MAXD; i++) {
-    if (i > D) continue;
-    if (t->kind != TK_EOF && t->loc == sp_J) break;
+  bool junk_seen = false;
+  for (int i = 0; i < NITEMS; i++) {
+    if (junk_seen) continue;
+    if (t->kind != TK_EOF && t->loc == sp_J) { junk_seen = true; continue; }
     if (ref_sel[i]) {
-      VASSERT(t == text_tok[i], "every selected text line is emitted, in order, and nothing else");
-      if (t != text_tok[i]) return;
+      VASSERT(t == line_tok[i], "every selected text line is emitted, in order, and nothing else");
+      if (t != line_tok[i]) return;
       t = t->next;
     }
   }
-  if (t->kind != TK_EOF && t->loc == sp_J)
+  if (junk_seen || (t->kind != TK_EOF && t->loc == sp_J))
     VASSERT(0, "trailing tokens on a directive line are never emitted");
   else
     VASSERT(t->kind == TK_EOF, "no text of a skipped group and no directive token is emitted");
   VCOVER();
 }
+void h_select(void) { run_select(false); }
+void h_select_junk(void) { run_select(true); }
 
-#define SK(s) void h_sel_##s(void) { run(#s, false); } void h_junk_##s(void) { run(#s, true); }
-#include "skeletons.inc"
+// real skip_cond_incl from any token preprocess2 can hand it (first token of a line, or the
+// junk token where the pinned skip_line leaves the cursor, or the operand of #if/#elif... all
+// "a token of line s"), inside a group
+void h_skip1(void) {
+  HAVOC_IN();
+  assume_shape(true);
+  bool wf = reference();
+  __CPROVER_assume(wf);
+  build();
+  int s = IN.start;
+  __CPROVER_assume(s < NITEMS);
+  Token *start = line_tok[s];
+  if (IN.at_junk) { __CPROVER_assume(junk_tok[s] != NULL); start = junk_tok[s]; }
+  int from = IN.at_junk ? s + 1 : s;
+  __CPROVER_assume(depth_before[from] >= 1);
+  expect_no_diag = 1;
+  Token *got = skip_cond_incl(start);
+  VASSERT(got == spec1_from(from), "skip_cond_incl stops at the matching #elif/#else/#endif of the current group");
+  VCOVER();
+}
+// real skip_cond_incl2 as its callers use it: on the third token of an opener line
+void h_skip2(void) {
+  HAVOC_IN();
+  assume_shape(true);
+  bool wf = reference();
+  __CPROVER_assume(wf);
+  build();
+  int s = IN.start;
+  __CPROVER_assume(s < NITEMS && IS_OPENER(IN.it[s].kind));
+  expect_no_diag = 1;
+  Token *(*fp)(Token *) = skip_cond_incl2;      // through a pointer: --replace-calls leaves this call alone
+  Token *got = fp(third_tok[s]);
+  VASSERT(got == spec2_from(s + 1), "skip_cond_incl2 returns the token after the matching #endif");
+  VCOVER();
+}
